@@ -49,7 +49,10 @@ Err(name)         == [how |-> "raised", exc |-> name, key |-> 0, asc |-> 0, ascq
 Allowed(tr, st, s, rawflag) ==
     IF st = GOOD THEN {Ret("none")}
     ELSE IF st = CHECK_CONDITION THEN
-        IF s = "none" THEN {Err("*")}                      \* nothing to report: still an error
+        IF s = "none" THEN                                 \* nothing to report: still an error ...
+            \* ... unless the binding says CHECK CONDITION with an empty sense buffer ("sgio_e") and the caller asked
+            \* for raw sense: then the empty byte string attached to the command (not None) is the report
+            (IF tr = "sgio_e" /\ rawflag THEN {Ret("empty"), Err("*")} ELSE {Err("*")})
         ELSE IF rawflag THEN {Ret(s), CC(s, s)}            \* raw sense attached; returning is allowed
         ELSE {CC(s, "none")}
     ELSE IF Named(st) # "" /\ tr = "iscsi" THEN {Err(Named(st))}
